@@ -33,7 +33,9 @@ Cand(dims, dtype, attrs, base, nanpos) ==
 \* float with NaN, int64, int32 ("j"), str data ("O"); 0-d to 3-d; shared and unshared dimensions
 Pool == << Cand(<<"x", "y">>, "f", 7, 100, {2}), Cand(<<"x">>, "i", 8, 200, {}), Cand(<<"y", "x">>, "f", 0, 300, {}),
            Cand(<<>>, "f", 9, 400, {}), Cand(<<"z">>, "O", 7, 500, {}), Cand(<<"z", "x">>, "j", 8, 600, {}),
-           Cand(<<"x", "y", "z">>, "f", 0, 700, {1, 5}), Cand(<<"y">>, "i", 0, 800, {}) >>
+           Cand(<<"x", "y", "z">>, "f", 0, 700, {1, 5}), Cand(<<"y">>, "i", 0, 800, {}),
+           \* same labels on x but other axis metadata: appending it must not touch the axis already in the file
+           [Cand(<<"x">>, "f", 0, 900, {}) EXCEPT !.aattrs = <<5>>] >>
 Keys == <<"a", "b", "c">>
 StrFree(a) == a.dtype # "O" /\ \A i \in 1..Len(a.kinds) : a.kinds[i] # "s"      \* writable in the NETCDF3 formats
 
@@ -42,10 +44,13 @@ HasVar(f, k) == \E i \in 1..Len(f.vars) : f.vars[i].key = k
 VarOf(f, k) == f.vars[CHOOSE i \in 1..Len(f.vars) : f.vars[i].key = k].arr
 
 \* add variable k = array a to file content f: new dimensions are created in the array's order
-AddVar(f, k, a) ==
-  LET newd == SelectSeq(a.dims, LAMBDA d : ~HasDimF(f, d))
+AddVar(f, k, a0) ==
+  LET newd == SelectSeq(a0.dims, LAMBDA d : ~HasDimF(f, d))
+      \* an axis already in the file keeps its metadata; the array's own axis metadata only counts for new dimensions
+      a == [a0 EXCEPT !.aattrs = [j \in 1..Len(a0.dims) |->
+                 IF HasDimF(f, a0.dims[j]) THEN f.axes[CHOOSE q \in 1..Len(f.dims) : f.dims[q] = a0.dims[j]].aattrs ELSE a0.aattrs[j]]]
   IN [f EXCEPT !.dims = f.dims \o newd,
-               !.axes = f.axes \o [i \in 1..Len(newd) |-> AxisOf(newd[i])],
+               !.axes = f.axes \o [i \in 1..Len(newd) |-> [AxisOf(newd[i]) EXCEPT !.aattrs = a0.aattrs[DimPos(a0, newd[i])]]],
                !.vars = IF HasVar(f, k)
                         THEN [i \in 1..Len(f.vars) |-> IF f.vars[i].key = k
                                                        THEN [key |-> k, arr |-> [a EXCEPT !.attrs = IF a.attrs = 0 THEN f.vars[i].arr.attrs ELSE a.attrs]]
